@@ -83,7 +83,7 @@ def _label(kind):
     if t == "Store":
         return "StoreFilled[%s]" % ("group" if kind["grp"] else "one-by-one")
     if t == "GroupBy":
-        return "GroupBy[%s]" % kind["by"]
+        return "GroupBy[%s]" % (groupby_call(kind)[2] if kind["by"] == "cfg" else kind["by"])
     if t == "Hist":
         return "Histogram[%s]" % kind["var"]
     if t == "Hist2":
@@ -92,6 +92,31 @@ def _label(kind):
         return "Graph[scale=%s,sort=%s%s]" % ("None" if kind["scale"] == NONE else kind["scale"], kind["sort"],
                                               ",points" if kind.get("ipts") else "")
     return t
+
+
+def groupby_call(kind):
+    """GroupBy(group_by, merge) of a kind with by = "cfg": the arguments as they are given - gb / mg lists of paths
+    (a path is the list of the dot-separated parts of a key, [] the empty string), gsp / msp their spelling
+    ("omit": not passed, "str": one bare string, "tuple": a tuple of strings) -> (args, kwargs, text)"""
+    def spell(paths, how):
+        keys = [".".join(p) for p in paths]
+        if how == "str":
+            if len(keys) != 1:
+                raise ValueError("one string expected: %r" % (paths,))
+            return keys[0]
+        return tuple(keys)
+    args, kwargs, text = [], {}, []
+    if kind["gsp"] != "omit":
+        args.append(spell(kind["gb"], kind["gsp"]))
+        text.append(repr(args[0]))
+    elif kind["gb"] != [[]]:
+        raise ValueError("only the default can be omitted: %r" % (kind,))
+    if kind["msp"] != "omit":
+        kwargs["merge"] = spell(kind["mg"], kind["msp"])
+        text.append("merge=" + repr(kwargs["merge"]))
+    elif kind["mg"] != [[]]:
+        raise ValueError("only the default can be omitted: %r" % (kind,))
+    return args, kwargs, ",".join(text).replace("'", '"').replace(" ", "")
 
 
 def fresh_kind(kind):
@@ -194,8 +219,12 @@ def build(kind):
     if t == "Store":
         return lena.flow.StoreFilled(yield_as_a_group=kind["grp"])
     if t == "GroupBy":
-        gb = lena.flow.GroupBy() if kind["by"] == "all" else \
-            lena.flow.GroupBy(("a", "count") if kind["by"] == "ac" else kind["by"])
+        if kind["by"] == "cfg":
+            args, kwargs, _ = groupby_call(kind)
+            gb = lena.flow.GroupBy(*args, **kwargs)
+        else:
+            gb = lena.flow.GroupBy() if kind["by"] == "all" else \
+                lena.flow.GroupBy(("a", "count") if kind["by"] == "ac" else kind["by"])
         return DeprecatedGroupBy(gb) if kind.get("opt") == "dep" else gb
     if t == "Hist":
         var, edges, init = kind["var"], list(kind["edges"]), copy.deepcopy(kind["init"])
@@ -700,6 +729,8 @@ def rand_ctx(rnd, kind):
     t = kind["t"]
     if kind.get("_component") and t not in ("Store", "GroupBy", "Count"):
         return None          # numeric components of a vector are bare numbers
+    if t == "GroupBy" and kind["by"] == "cfg":
+        return rand_group_ctx(rnd, kind)
     if rnd.random() < 0.35 and not (t == "GroupBy" and kind["by"] in ("a", "ac")):
         return None          # a bare value
     c = {}
@@ -721,6 +752,55 @@ def rand_ctx(rnd, kind):
         c["n"] = {"b": rnd.randint(0, 3)}
     if t == "Graph" and rnd.random() < 0.4:
         c["scale"] = rnd.choice([2, 2, 2, 3])
+    return shuffled(rnd, c)
+
+
+# GroupBy(group_by, merge) configurations of the recorded histories: (paths of group_by, paths of merge)
+GROUP_CFGS = [
+    ([[]], []), ([[]], []), ([[]], [[]]), ([], [[]]),
+    ([[]], [["a"]]), ([[]], [["a"], ["count"]]), ([[]], [["b"]]), ([["a"]], [[]]), ([["b"], ["a"]], [[]]),
+    ([[]], [["n", "b"]]), ([["n", "b"]], [[]]), ([[], ["n", "b"]], [["n"]]), ([[]], [["n"]]), ([["n"]], [[]]),
+    ([["a"], ["n", "b"]], [[]]), ([["n"]], [[], ["n", "b"]]), ([[]], [["n", "b"], ["a"]]),
+]
+
+
+def rand_group_kind(rnd):
+    gb, mg = copy.deepcopy(rnd.choice(GROUP_CFGS))
+
+    def spelling(paths):
+        if len(paths) != 1:
+            return "tuple"
+        return rnd.choice(["str", "tuple", "omit"] if paths == [[]] else ["str", "tuple"])
+    gsp, msp = spelling(gb), spelling(mg)
+    if gb == [[]] and mg == [[]]:
+        # the empty string in both arguments is accepted as the default arguments only
+        gsp, msp = rnd.choice(["str", "omit"]), rnd.choice(["str", "omit"])
+    return {"t": "GroupBy", "by": "cfg", "gb": gb, "gsp": gsp, "mg": mg, "msp": msp}
+
+
+def rand_group_ctx(rnd, kind):
+    """few different contexts, so that equal selections meet in one group; a GroupBy that selects given keys
+    only is filled with contexts that have them; where a rule leads into the sub-dictionary n, n.b is there"""
+    paths = [p for p in kind["gb"] + kind["mg"] if p]
+    nested = any(p[0] == "n" for p in paths)
+    whole = [] in kind["gb"] or not kind["gb"]
+    if whole and not nested and rnd.random() < 0.25:
+        return None          # a bare value
+    c = {}
+    if nested or rnd.random() < 0.7:
+        c["a"] = rnd.randint(0, 1)
+    if rnd.random() < 0.4:
+        c["count"] = rnd.randint(0, 1)
+    if rnd.random() < 0.3:
+        c["b"] = rnd.randint(0, 1)
+    if nested or rnd.random() < 0.2:
+        c["n"] = {"b": rnd.randint(0, 1)}
+    if not whole:
+        first = kind["gb"][0]
+        if first[0] != "n" and first[0] not in c:
+            c[first[0]] = rnd.randint(0, 1)
+        elif first == ["n"] and "n" not in c:
+            c["n"] = {"b": rnd.randint(0, 1)}
     return shuffled(rnd, c)
 
 
@@ -746,7 +826,7 @@ def rand_float(rnd, prev):
 
 def rand_kind(rnd):
     t = rnd.choice(["Count", "Sum", "DSum", "DSum", "Mean", "MeanD", "VMC", "VecSum", "VecMean", "VecList", "VecList",
-                    "Store", "GroupBy",
+                    "Store", "GroupBy", "GroupBy",
                     "Hist", "Hist", "Hist2", "Graph"])
     if t == "Count":
         return {"t": "Count", "name": rnd.choice(["count", "n2", "n.b", "count.sel", "a", "events.selected"]),
@@ -770,6 +850,7 @@ def rand_kind(rnd):
     if t == "VecList":
         pool = [{"t": "Sum", "start": 0}, {"t": "Sum", "start": 3}, {"t": "Store", "grp": False},
                 {"t": "Store", "grp": True}, {"t": "GroupBy", "by": "a"}, {"t": "GroupBy", "by": "all"},
+                {"t": "GroupBy", "by": "cfg", "gb": [[]], "gsp": "str", "mg": [], "msp": "tuple"},
                 {"t": "Count", "name": "count", "start": 0}, {"t": "Mean", "inner": "py", "poe": True},
                 {"t": "Mean", "inner": "py", "poe": False}, {"t": "VMC", "corr": True, "poe": False, "given": False}]
         return {"t": "Vec", "inners": [rnd.choice(pool) for _ in range(rnd.randint(1, 4))], "form": "list",
@@ -777,7 +858,8 @@ def rand_kind(rnd):
     if t == "Store":
         return {"t": "Store", "grp": rnd.random() < 0.5}
     if t == "GroupBy":
-        return {"t": "GroupBy", "by": rnd.choice(["all", "a", "ac", "ac"])}
+        by = rnd.choice(["all", "a", "ac", "ac", "cfg", "cfg", "cfg", "cfg"])
+        return rand_group_kind(rnd) if by == "cfg" else {"t": "GroupBy", "by": by}
     if t == "Hist":
         n = rnd.randint(1, 5)
         edges = sorted(rnd.sample(range(-6, 9), n + 1))
